@@ -2212,15 +2212,32 @@ def _new_decoder(eng, t, a, fr, dt):
     return Agg('Decoder', (VecV(), bom, True))
 
 
-@reg('Decoder::max_utf8_buffer_length', 'Decoder::max_utf8_buffer_length_without_replacement')
+def _decoder_needed(pending_len, n):
+    """encoding_rs utf_8.rs: max_utf8_buffer_length(n) = 3 + 3 * (n + extra_from_state()), where
+    extra_from_state() = bytes_seen + 1 = number of bytes held from the previous call (0 if none)."""
+    return binop('Add', binop('Mul', binop('Add', n, Int('usize', pending_len)), Int('usize', 3)), Int('usize', 3))
+
+
+@reg('Decoder::max_utf8_buffer_length')
 def _max_utf8_len(eng, t, a, fr, dt):
-    n = a[1]
-    return some(binop('Add', binop('Mul', n, Int('usize', 3)), Int('usize', 4)))
+    dec = deref_all(a[0])
+    return some(_decoder_needed(len(dec.f[0].items), a[1]))
+
+
+@reg('Decoder::max_utf8_buffer_length_without_replacement')
+def _max_utf8_len_wr(eng, t, a, fr, dt):
+    dec = deref_all(a[0])
+    return some(binop('Add', a[1], Int('usize', 3 + len(dec.f[0].items))))
 
 
 @reg('String::with_capacity')
 def _string_with_capacity(eng, t, a, fr, dt):
-    return Str(())
+    st = Str(())
+    caps = getattr(eng, 'str_caps', None)
+    if caps is None:
+        caps = eng.str_caps = {}
+    caps[id(st)] = (st, a[0])     # the object is kept alive so the id stays unique
+    return st
 
 
 @reg('Decoder::decode_to_string')
@@ -2229,6 +2246,17 @@ def _decode_to_string(eng, t, a, fr, dt):
     dec = eng.load(dref)
     pending, bom, at_start = dec.f
     src_items = [deref_all(x) for x in seq_items(eng, src)]
+    # the decoder only guarantees to consume all input when the destination has at least
+    # max_utf8_buffer_length(src.len()) bytes of room; with less it may stop early (OutputFull), which
+    # this summary does not model -- such a call is reported as inconclusive, never as a pass
+    d0 = eng.load(dst)
+    need = _decoder_needed(len(pending.items), Int('usize', len(src_items)))
+    ent = getattr(eng, 'str_caps', {}).get(id(d0))
+    cap = ent[1] if ent is not None and ent[0] is d0 else Int('usize', 0)
+    room = cap
+    if src_items and not eng.ctx.must(_cmp('Ge', 'usize', room.v, need.v)):
+        raise Unmodelled('Decoder::decode_to_string with a destination of capacity %s where max_utf8_buffer_length '
+                         'requires %s: encoding_rs may return OutputFull and leave input unread' % (cap.v, need.v))
     bs = list(pending.items) + src_items
     ctx = eng.ctx
     if bom != 'none' and at_start and len(bs) >= 3:
@@ -2241,3 +2269,577 @@ def _decode_to_string(eng, t, a, fr, dt):
     cur = as_str(eng, eng.load(dst))
     eng.store(dst, Str(cur.c + tuple(chars)))
     return Agg('tuple', (Enum('CoderResult', 0), Int('usize', len(src_items)), e))
+
+
+# --------------------------------------------------------------------------- further std methods a plausible edit may use
+
+@reg('Range::contains', 'RangeInclusive::contains', 'RangeFrom::contains', 'RangeTo::contains', 'RangeBounds::contains')
+def _range_contains(eng, t, a, fr, dt):
+    rg = deref_all(a[0])
+    x = deref_all(a[1])
+    ty = x.ty
+    if rg.name == 'Range':
+        return bool_and(_cmp('Le', ty, rg.f[0].v, x.v), _cmp('Lt', ty, x.v, rg.f[1].v))
+    if rg.name == 'RangeInclusive':
+        r = bool_and(_cmp('Le', ty, rg.f[0].v, x.v), _cmp('Le', ty, x.v, rg.f[1].v))
+        return bool_and(r, bool_not(rg.f[2])) if rg.f[2] is not False else r
+    if rg.name == 'RangeFrom':
+        return _cmp('Le', ty, rg.f[0].v, x.v)
+    if rg.name == 'RangeTo':
+        return _cmp('Lt', ty, x.v, rg.f[0].v)
+    raise Unmodelled('contains on ' + rg.name)
+
+
+@reg('Range::is_empty', 'RangeInclusive::is_empty')
+def _range_is_empty(eng, t, a, fr, dt):
+    rg = deref_all(a[0])
+    ty = rg.f[0].ty
+    if rg.name == 'Range':
+        return bool_not(_cmp('Lt', ty, rg.f[0].v, rg.f[1].v))
+    return bool_or(rg.f[2], bool_not(_cmp('Le', ty, rg.f[0].v, rg.f[1].v)))
+
+
+@reg('[]::is_ascii', 'str::is_ascii', 'String::is_ascii')
+def _is_ascii_seq(eng, t, a, fr, dt):
+    v = deref_all(a[0])
+    if type(v) in (Str, SChoice):
+        items = [Int('char', c) for c in as_str(eng, v).c]
+    else:
+        items = [deref_all(x) for x in seq_items(eng, a[0])]
+    r = True
+    for x in items:
+        r = bool_and(r, _cmp('Lt', x.ty, x.v, 128))
+    return r
+
+
+@reg('u8::is_ascii')
+def _u8_is_ascii(eng, t, a, fr, dt):
+    x = deref_all(a[0])
+    return _cmp('Lt', x.ty, x.v, 128)
+
+
+@reg('Option::take')
+def _opt_take(eng, t, a, fr, dt):
+    old = eng.load(a[0])
+    eng.store(a[0], NONE)
+    return old
+
+
+@reg('Option::replace')
+def _opt_replace(eng, t, a, fr, dt):
+    old = eng.load(a[0])
+    eng.store(a[0], some(a[1]))
+    return old
+
+
+@reg('Option::insert', 'Option::get_or_insert')
+def _opt_insert(eng, t, a, fr, dt):
+    old = eng.load(a[0])
+    if t.key.endswith('get_or_insert') and _disc_is(eng, old, 1):
+        pass
+    else:
+        eng.store(a[0], some(a[1]))
+    r = a[0]
+    return Ref(r.base, r.path + (('dc', 'Some'), 0))
+
+
+@reg('Option::filter')
+def _opt_filter(eng, t, a, fr, dt):
+    e = a[0]
+    if _disc_is(eng, e, 1):
+        keep = eng.call_closure(a[1], [Ref(Cell(e.pay[1][0]), (0,))], fr.tsubst if fr else None)
+        if eng.ctx.branch(keep):
+            return e
+    return NONE
+
+
+@reg('Option::unwrap_or_else', 'Result::unwrap_or_else')
+def _unwrap_or_else(eng, t, a, fr, dt):
+    e = a[0]
+    okv = 1 if e.ty == 'Option' else 0
+    if _disc_is(eng, e, okv):
+        return e.pay[okv][0]
+    args = [] if e.ty == 'Option' else [e.pay[1][0]]
+    return eng.call_closure(a[1], args, fr.tsubst if fr else None)
+
+
+@reg('Option::map_or')
+def _opt_map_or(eng, t, a, fr, dt):
+    e = a[0]
+    if _disc_is(eng, e, 1):
+        return eng.call_closure(a[2], [e.pay[1][0]], fr.tsubst if fr else None)
+    return a[1]
+
+
+@reg('Option::map_or_else')
+def _opt_map_or_else(eng, t, a, fr, dt):
+    e = a[0]
+    if _disc_is(eng, e, 1):
+        return eng.call_closure(a[2], [e.pay[1][0]], fr.tsubst if fr else None)
+    return eng.call_closure(a[1], [], fr.tsubst if fr else None)
+
+
+@reg('Option::is_none_or')
+def _opt_is_none_or(eng, t, a, fr, dt):
+    e = a[0]
+    if _disc_is(eng, e, 1):
+        return eng.call_closure(a[1], [e.pay[1][0]], fr.tsubst if fr else None)
+    return True
+
+
+@reg('Option::or_else')
+def _opt_or_else(eng, t, a, fr, dt):
+    e = a[0]
+    if _disc_is(eng, e, 1):
+        return e
+    return eng.call_closure(a[1], [], fr.tsubst if fr else None)
+
+
+@reg('Option::and')
+def _opt_and(eng, t, a, fr, dt):
+    if _disc_is(eng, a[0], 1):
+        return a[1]
+    return NONE
+
+
+@reg('Option::xor')
+def _opt_xor(eng, t, a, fr, dt):
+    x, y = _disc_is(eng, a[0], 1), _disc_is(eng, a[1], 1)
+    if x and not y:
+        return a[0]
+    if y and not x:
+        return a[1]
+    return NONE
+
+
+@reg('Option::ok_or')
+def _opt_ok_or(eng, t, a, fr, dt):
+    if _disc_is(eng, a[0], 1):
+        return ok(a[0].pay[1][0])
+    return err(a[1])
+
+
+@reg('Option::as_ref', 'Option::as_mut', 'Option::as_deref')
+def _opt_as_ref(eng, t, a, fr, dt):
+    r = a[0]
+    e = eng.load(r) if type(r) is Ref else r
+    if _disc_is(eng, e, 1):
+        if type(r) is Ref:
+            return some(Ref(r.base, r.path + (('dc', 'Some'), 0)))
+        return some(e.pay[1][0])
+    return NONE
+
+
+@reg('Option::unwrap_unchecked')
+def _opt_unwrap_unchecked(eng, t, a, fr, dt):
+    return _opt_unwrap(eng, t, a, fr, dt)
+
+
+@reg('Result::ok')
+def _res_ok(eng, t, a, fr, dt):
+    if _disc_is(eng, a[0], 0):
+        return some(a[0].pay[0][0])
+    return NONE
+
+
+@reg('Result::is_ok')
+def _res_is_ok(eng, t, a, fr, dt):
+    e = deref_all(a[0])
+    return e.disc == 0 if type(e.disc) is int else e.disc == z3.BitVecVal(0, 64)
+
+
+@reg('Result::is_err')
+def _res_is_err(eng, t, a, fr, dt):
+    return bool_not(_res_is_ok(eng, t, a, fr, dt))
+
+
+@reg('Result::map')
+def _res_map(eng, t, a, fr, dt):
+    if _disc_is(eng, a[0], 0):
+        return ok(eng.call_closure(a[1], [a[0].pay[0][0]], fr.tsubst if fr else None))
+    return a[0]
+
+
+@reg('u32::pow', 'usize::pow', 'u64::pow', 'i32::pow')
+def _pow(eng, t, a, fr, dt):
+    x, y = a
+    e = y.v if y.concrete else eng.ctx.concretize(y.v)
+    r = Int(x.ty, 1)
+    for _ in range(e):
+        m = binop('MulWithOverflow', r, x)
+        if not eng.ctx.branch(bool_not(m.f[1])):
+            raise Panic('attempt to multiply with overflow')
+        r = m.f[0]
+    return r
+
+
+@reg('u32::checked_mul', 'usize::checked_mul')
+def _chk_mul(eng, t, a, fr, dt):
+    m = binop('MulWithOverflow', a[0], a[1])
+    if eng.ctx.branch(bool_not(m.f[1])):
+        return some(m.f[0])
+    return NONE
+
+
+@reg('u32::wrapping_mul', 'usize::wrapping_mul')
+def _wr_mul(eng, t, a, fr, dt):
+    return binop('Mul', a[0], a[1])
+
+
+@reg('u32::saturating_mul', 'usize::saturating_mul')
+def _sat_mul(eng, t, a, fr, dt):
+    m = binop('MulWithOverflow', a[0], a[1])
+    hi = (1 << BITS[a[0].ty]) - 1
+    if type(m.f[1]) is bool:
+        return Int(a[0].ty, hi) if m.f[1] else m.f[0]
+    return Int(a[0].ty, z3.If(m.f[1], z3.BitVecVal(hi, BITS[a[0].ty]), bv(m.f[0])))
+
+
+@reg('u32::is_power_of_two')
+def _is_pow2(eng, t, a, fr, dt):
+    x = a[0]
+    if x.concrete:
+        return x.v != 0 and (x.v & (x.v - 1)) == 0
+    return z3.And(x.v != 0, (x.v & (x.v - 1)) == 0)
+
+
+@reg('u32::div_ceil', 'usize::div_ceil')
+def _div_ceil(eng, t, a, fr, dt):
+    x, y = a
+    if not eng.ctx.branch(bool_not(int_eq(y, 0))):
+        raise Panic('attempt to divide by zero')
+    q = binop('Div', x, y)
+    r = binop('Rem', x, y)
+    nz = bool_not(int_eq(r, 0))
+    if type(nz) is bool:
+        return binop('Add', q, Int(x.ty, 1)) if nz else q
+    return Int(x.ty, z3.If(nz, bv(q) + 1, bv(q)))
+
+
+@reg('char::to_digit')
+def _to_digit(eng, t, a, fr, dt):
+    c = deref_all(a[0])
+    radix = a[1].v
+    if radix != 10:
+        raise Unmodelled('to_digit radix %r' % radix)
+    isd = _cmp('Ge', 'u32', c.v, 48)
+    isd = bool_and(isd, _cmp('Le', 'u32', c.v, 57))
+    if eng.ctx.branch(isd):
+        return some(Int('u32', (c.v - 48)))
+    return NONE
+
+
+@reg('char::is_ascii_control', 'char::is_ascii_graphic', 'char::is_ascii_alphabetic', 'char::is_ascii_alphanumeric',
+     'char::is_ascii_punctuation', 'char::is_ascii_uppercase', 'char::is_ascii_lowercase', 'char::is_ascii_hexdigit',
+     'char::is_ascii_whitespace')
+def _char_ascii_class(eng, t, a, fr, dt):
+    c = deref_all(a[0]).v
+    kind = t.key.split('is_ascii_')[1]
+    rngs = {'control': [(0, 31), (127, 127)], 'graphic': [(33, 126)], 'alphabetic': [(65, 90), (97, 122)],
+            'alphanumeric': [(48, 57), (65, 90), (97, 122)], 'uppercase': [(65, 90)], 'lowercase': [(97, 122)],
+            'hexdigit': [(48, 57), (65, 70), (97, 102)], 'whitespace': [(9, 10), (12, 13), (32, 32)],
+            'punctuation': [(33, 47), (58, 64), (91, 96), (123, 126)]}[kind]
+    r = False
+    for lo, hi in rngs:
+        r = bool_or(r, bool_and(_cmp('Ge', 'u32', c, lo), _cmp('Le', 'u32', c, hi)))
+    return r
+
+
+@reg('str::trim_start_matches', 'str::trim_end_matches', 'str::trim_matches')
+def _trim_matches(eng, t, a, fr, dt):
+    s = as_str(eng, a[0])
+    pv = deref_all(a[1])
+    if type(pv) is Int:
+        pat = pv.v
+    else:
+        ps = as_str(eng, pv)
+        if len(ps.c) != 1:
+            raise Unmodelled('trim_*_matches with a multi-character pattern')
+        pat = ps.c[0]
+    chars = list(s.c)
+    if 'start' in t.key or t.key.endswith('trim_matches'):
+        while chars and eng.ctx.branch(int_eq(chars[0], pat)):
+            chars.pop(0)
+    if 'end' in t.key or t.key.endswith('trim_matches'):
+        while chars and eng.ctx.branch(int_eq(chars[-1], pat)):
+            chars.pop()
+    return Str(chars)
+
+
+@reg('str::strip_prefix', 'str::strip_suffix')
+def _strip_prefix(eng, t, a, fr, dt):
+    s = as_str(eng, a[0])
+    pv = deref_all(a[1])
+    pat = (pv.v,) if type(pv) is Int else as_str(eng, pv).c
+    n = len(pat)
+    if n > len(s.c):
+        return NONE
+    pre = t.key.endswith('prefix')
+    seg = s.c[:n] if pre else s.c[len(s.c) - n:]
+    e = True
+    for x, y in zip(seg, pat):
+        e = bool_and(e, int_eq(x, y))
+    if eng.ctx.branch(e):
+        return some(Str(s.c[n:] if pre else s.c[:len(s.c) - n]))
+    return NONE
+
+
+@reg('str::to_string', 'str::to_owned', 'String::to_string')
+def _str_to_string(eng, t, a, fr, dt):
+    return as_str_nofork(a[0])
+
+
+@reg('String::insert')
+def _string_insert(eng, t, a, fr, dt):
+    s = as_str(eng, eng.load(a[0]))
+    off = a[1].v if a[1].concrete else eng.ctx.concretize(a[1].v)
+    pre = _str_slice(eng, s, 0, off)
+    eng.store(a[0], Str(pre.c + (a[2].v,) + s.c[len(pre.c):]))
+    return UNIT
+
+
+@reg('String::truncate')
+def _string_truncate(eng, t, a, fr, dt):
+    s = as_str(eng, eng.load(a[0]))
+    off = a[1].v if a[1].concrete else eng.ctx.concretize(a[1].v)
+    if off < str_len(eng, s).v if str_len(eng, s).concrete else True:
+        eng.store(a[0], _str_slice(eng, s, 0, off))
+    return UNIT
+
+
+@reg('str::char_indices')
+def _char_indices(eng, t, a, fr, dt):
+    s = as_str(eng, a[0])
+    items = []
+    off = 0
+    for c in s.c:
+        items.append(Agg('tuple', (Int('usize', off), Int('char', c))))
+        l = char_utf8_len(c)
+        off += l if type(l) is int else eng.ctx.concretize(l)
+    return Iter('list', tuple(items), 0)
+
+
+@reg('str::bytes', 'String::bytes', 'str::as_bytes', 'String::into_bytes')
+def _str_bytes(eng, t, a, fr, dt):
+    s = as_str(eng, a[0])
+    if not s.concrete():
+        raise Unmodelled('bytes of a symbolic string')
+    bs = tuple(Int('u8', b) for b in s.py().encode('utf-8'))
+    if t.key.endswith('bytes') and not t.key.endswith('as_bytes') and not t.key.endswith('into_bytes'):
+        return Iter('list', bs, 0)
+    return VecV(bs) if t.key.endswith('into_bytes') else Agg('[]', bs)
+
+
+@reg('Iterator::position')
+def _it_position(eng, t, a, fr, dt):
+    r = a[0]
+    it = to_iter(eng, eng.load(r) if type(r) is Ref else r)
+    i = 0
+    while True:
+        it, item = iter_next(eng, it)
+        if item is None:
+            res = NONE
+            break
+        if eng.ctx.branch(eng.call_closure(a[1], [item], fr.tsubst if fr else None)):
+            res = some(Int('usize', i))
+            break
+        i += 1
+    if type(r) is Ref:
+        eng.store(r, it)
+    return res
+
+
+@reg('Iterator::find')
+def _it_find(eng, t, a, fr, dt):
+    r = a[0]
+    it = to_iter(eng, eng.load(r) if type(r) is Ref else r)
+    res = NONE
+    while True:
+        it, item = iter_next(eng, it)
+        if item is None:
+            break
+        if eng.ctx.branch(eng.call_closure(a[1], [Ref(Cell(item), (0,))], fr.tsubst if fr else None)):
+            res = some(item)
+            break
+    if type(r) is Ref:
+        eng.store(r, it)
+    return res
+
+
+@reg('Iterator::fold')
+def _it_fold(eng, t, a, fr, dt):
+    it = to_iter(eng, a[0])
+    acc = a[1]
+    while True:
+        it, item = iter_next(eng, it)
+        if item is None:
+            return acc
+        acc = eng.call_closure(a[2], [acc, item], fr.tsubst if fr else None)
+
+
+@reg('Iterator::for_each')
+def _it_for_each(eng, t, a, fr, dt):
+    it = to_iter(eng, a[0])
+    while True:
+        it, item = iter_next(eng, it)
+        if item is None:
+            return UNIT
+        eng.call_closure(a[1], [item], fr.tsubst if fr else None)
+
+
+@reg('Iterator::sum')
+def _it_sum(eng, t, a, fr, dt):
+    it = to_iter(eng, a[0])
+    acc = None
+    while True:
+        it, item = iter_next(eng, it)
+        if item is None:
+            break
+        item = deref_all(item)
+        if acc is None:
+            acc = item
+        else:
+            m = binop('AddWithOverflow', acc, item)
+            if not eng.ctx.branch(bool_not(m.f[1])):
+                raise Panic('attempt to add with overflow')
+            acc = m.f[0]
+    if acc is None:
+        ty = (t.generics[0] if t.generics else 'u32')
+        return Int(ty if ty in BITS else 'u32', 0)
+    return acc
+
+
+@reg('Iterator::max', 'Iterator::min')
+def _it_minmax(eng, t, a, fr, dt):
+    it = to_iter(eng, a[0])
+    best = None
+    want_max = t.key.endswith('max')
+    while True:
+        it, item = iter_next(eng, it)
+        if item is None:
+            break
+        if best is None:
+            best = item
+            continue
+        x, y = deref_all(item), deref_all(best)
+        better = _cmp('Ge' if want_max else 'Lt', x.ty, x.v, y.v)
+        if eng.ctx.branch(better):
+            best = item
+    return opt(best)
+
+
+@reg('Iterator::zip')
+def _it_zip(eng, t, a, fr, dt):
+    x, y = to_iter(eng, a[0]), to_iter(eng, a[1])
+    items = []
+    while True:
+        x, i1 = iter_next(eng, x)
+        if i1 is None:
+            break
+        y, i2 = iter_next(eng, y)
+        if i2 is None:
+            break
+        items.append(Agg('tuple', (i1, i2)))
+    return Iter('list', tuple(items), 0)
+
+
+@reg('Iterator::peekable', 'Iterator::fuse')
+def _it_identity(eng, t, a, fr, dt):
+    return to_iter(eng, a[0])
+
+
+@reg('Iterator::skip_while', 'Iterator::take_while')
+def _it_while(eng, t, a, fr, dt):
+    it = to_iter(eng, a[0])
+    items = []
+    taking = t.key.endswith('take_while')
+    skipping = not taking
+    while True:
+        it, item = iter_next(eng, it)
+        if item is None:
+            break
+        if taking:
+            if eng.ctx.branch(eng.call_closure(a[1], [Ref(Cell(item), (0,))], fr.tsubst if fr else None)):
+                items.append(item)
+            else:
+                break
+        else:
+            if skipping and eng.ctx.branch(eng.call_closure(a[1], [Ref(Cell(item), (0,))], fr.tsubst if fr else None)):
+                continue
+            skipping = False
+            items.append(item)
+    return Iter('list', tuple(items), 0)
+
+
+@reg('Vec::swap', '[]::swap')
+def _vec_swap(eng, t, a, fr, dt):
+    r = _innermost_ref(eng, a[0])
+    v = eng.load(r)
+    items = list(v.items if type(v) is VecV else v.f)
+    i = a[1].v if a[1].concrete else eng.ctx.concretize(a[1].v)
+    j = a[2].v if a[2].concrete else eng.ctx.concretize(a[2].v)
+    if i >= len(items) or j >= len(items):
+        raise Panic('index out of bounds')
+    items[i], items[j] = items[j], items[i]
+    eng.store(r, VecV(items) if type(v) is VecV else Agg(v.name, items))
+    return UNIT
+
+
+@reg('Vec::extend', 'Vec::append')
+def _vec_extend(eng, t, a, fr, dt):
+    if t.key.endswith('append'):
+        other = eng.load(a[1])
+        v = eng.load(a[0])
+        eng.store(a[0], VecV(v.items + other.items))
+        eng.store(a[1], VecV())
+        return UNIT
+    return _extend(eng, t, a, fr, dt)
+
+
+@reg('Vec::contains')
+def _vec_contains(eng, t, a, fr, dt):
+    return _slice_contains(eng, t, a, fr, dt)
+
+
+@reg('Vec::split_off')
+def _vec_split_off(eng, t, a, fr, dt):
+    v = eng.load(a[0])
+    k = a[1].v if a[1].concrete else eng.ctx.concretize(a[1].v)
+    if k > len(v.items):
+        raise Panic('split_off index out of bounds')
+    eng.store(a[0], VecV(v.items[:k]))
+    return VecV(v.items[k:])
+
+
+@reg('[]::split_at')
+def _split_at(eng, t, a, fr, dt):
+    items = seq_items(eng, a[0])
+    k = a[1].v if a[1].concrete else eng.ctx.concretize(a[1].v)
+    if k > len(items):
+        raise Panic('mid > len in split_at')
+    r = _innermost_ref(eng, a[0])
+    off = r.rng[0] if r.rng else 0
+    return Agg('tuple', (Ref(r.base, r.path, (off, off + k)), Ref(r.base, r.path, (off + k, off + len(items)))))
+
+
+@reg('HashMap::get_or_insert_with', 'HashMap::entry_ref')
+def _hm_unsupported(eng, t, a, fr, dt):
+    raise Unmodelled(t.key)
+
+
+@reg('HashMap::extend', 'HashSet::extend')
+def _hm_extend(eng, t, a, fr, dt):
+    return _extend(eng, t, a, fr, dt)
+
+
+@reg('HashSet::is_subset', 'HashSet::is_disjoint')
+def _hs_rel(eng, t, a, fr, dt):
+    x, y = deref_all(a[0]), deref_all(a[1])
+    r = True
+    for (k, p, v) in x.e:
+        inn = map_contains(eng, y, k)
+        if t.key.endswith('is_subset'):
+            r = bool_and(r, bool_or(bool_not(p), inn))
+        else:
+            r = bool_and(r, bool_not(bool_and(p, inn)))
+    return r
